@@ -118,7 +118,7 @@ _add(
          "with reduced magnitudes at the stated limit, range invariant checked after every application. distinct = "
          "(operation, bound, half, reduction and route, dtype, inside/outside, contribution form) abstractions.",
     required=["contributions", "applications", "second_applications", "permutation_checks",
-              "custom_reduction_applications", "longrun_applications", "bound_removals", "discarded_pending_updates", "one_sided_full_bound_cases"],
+              "custom_reduction_applications", "longrun_applications", "bound_removals", "discarded_pending_updates", "one_sided_full_bound_cases", "all_zero_parts_contributed"],
     floor={"quick": 150, "thorough": 300},
     text="Held on every interleaving explored: parameter values after each update / updatesome / clear on the real "
          "Updater are compared with old + U(reduce(pos)) - L(reduce(neg)) computed from recorded parts, a spy reduction "
